@@ -583,6 +583,13 @@ func C07() int {
 		add("n4_full", c07Leaves, c07Containers, 4, 3)
 		add("n5_reduced", redL, redC, 5, 3)
 	}
+	// the skeletons of up to two items once more with the variable spelled as the blank identifier: TypeShell
+	// treats `_` as an ordinary variable (definable, readable), so the clauses hold for it like for any name
+	blankFrom := len(all)
+	for _, k := range []int{1, 2} {
+		all = append(all, c07Enum(c07Leaves, c07Containers, k, 3, 3, map[[3]int][][]c07Item{})...)
+	}
+	r.Set("skeletons_with_the_variable_spelled_as_blank_identifier", len(all)-blankFrom)
 	var mu sync.Mutex
 	cnt := map[string]int{}
 	distinct := findings.NewDistinct()
@@ -602,9 +609,18 @@ func C07() int {
 		items := all[i]
 		verdict, why := c07Judge(items)
 		prog := c07Prog(items)
+		name := c07Name(items)
+		if i >= blankFrom {
+			prog = renameProg(prog, func(n string) string {
+				if n == "x" {
+					return "_"
+				}
+				return n
+			})
+			name += " x-spelled=_"
+		}
 		src := PrintProg(*prog)
 		distinct.Add(src)
-		name := c07Name(items)
 		mu.Lock()
 		done++
 		cnt[[]string{"oracle-accept", "oracle-reject", "oracle-unspecified"}[verdict]]++
